@@ -48,6 +48,9 @@ var FaultPrelude = []string{
 	"outer = (j, c, k) -> {\nt = [j]\nfor v <- gfail(j, c, k) t = t + [v]\nt\n}",
 	"sum = (n) -> {\ns = 0\nfor i <- fromto(0, n) s = s + i\ns\n}",
 	"counter = (n) -> {\nc = 0\ninc = () -> c + 1\ni = 0\nwhile i < n {\nc = inc()\ni = i + 1\n}\nc\n}",
+	"cnd = (i, j, c, k) -> if i == j boom(c, k) else i",
+	"whilefn = (j, c, k) -> {\ni = 0\nwhile cnd(i, j, c, k) < 4 i = i + 1\ni\n}",
+	"whilegen = (j, c, k) -> {\ni = 0\nwhile cnd(i, j, c, k) < 4 {\nyield i\ni = i + 1\n}\n}",
 	"acc = []",
 	"ga = 0",
 	"gb = 0",
@@ -88,7 +91,19 @@ func (g *FaultGen) Carrier() Carrier {
 	k := g.pick(9)
 	j := g.pick(5)
 	boom := fmt.Sprintf("boom(%d, %d)", c, k)
-	switch g.pick(16) {
+	switch g.pick(21) {
+	case 16: // below a call in a while condition, at its j-th evaluation (top level, discarded loop)
+		return Carrier{Stmt: fmt.Sprintf("{\nzi = 0\nwhile cnd(zi, %d, %d, %d) < 4 zi = zi + 1\n}", j, c, k),
+			Twin: fmt.Sprintf("{\nzi = 0\nwhile zi < %d zi = zi + 1\n}", j), Where: fmt.Sprintf("in a while condition at evaluation %d", j), Deep: true}
+	case 17: // the same in a value-producing while inside a function
+		return Carrier{Stmt: fmt.Sprintf("gb = whilefn(%d, %d, %d)", j, c, k), Where: "in a while condition inside a function", Deep: true}
+	case 18: // the same inside a generator driven by a loop
+		return Carrier{Stmt: fmt.Sprintf("for v <- whilegen(%d, %d, %d) acc = acc + [v]", j, c, k),
+			Twin: fmt.Sprintf("for v <- gstop(%d) acc = acc + [v]", j), Where: "in a while condition inside a generator", Deep: true}
+	case 19, 20: // a block that binds functions to globals and then fails: the functions stay usable
+		n := g.pick(50)
+		return Carrier{Stmt: fmt.Sprintf("{\nzf = (n) -> n + %d\nzg = (s) -> \"hello \" + s + toa(%d)\nzh = () -> (m) -> m * %d\n%s\ngb = 7\n}", n, n, n+2, boom),
+			Twin: fmt.Sprintf("{\nzf = (n) -> n + %d\nzg = (s) -> \"hello \" + s + toa(%d)\nzh = () -> (m) -> m * %d\nreturn 0\ngb = 7\n}", n, n, n+2), Where: "in a block after binding functions to globals"}
 	case 0:
 		return Carrier{Stmt: rawFailures[g.pick(len(rawFailures))], Where: "top level"}
 	case 1:
@@ -141,6 +156,7 @@ var observers = []string{
 	"for a, b <- fromto(0, 3), elems(\"xyz\") acc = acc + [b]", "down(30, 0, 7)", "boom(0, 3)", "{\nzc = mkboom(0, 9)\nzc()\n}",
 	"for v <- map(sq, () -> fromto(0, 4)) write(toa(v) + \" \")", "inloop(9, 0, 1)", "outer(9, 0, 1)", "write(toa(acc) + \"\\n\")", "acc = acc[0:#acc / 2]",
 	"for i <- fromto(0, 2) for k <- fromto(0, 2) ga = ga + i * k", "[sum(2), sum(3)] + [counter(2)]", "rebind(0, 4)", "app(boom, 0, 5)",
+	"zf(1)", "zg(\"w\")", "{\nzm = zh()\nzm(3)\n}", "gc = 100", "gd = \"bye \"", "[zf(41), zg(\"x\")]", "whilefn(9, 0, 1)", "for v <- whilegen(9, 0, 1) acc = acc + [v]",
 }
 
 // Observer returns a statement that observes or uses the session state.
